@@ -101,7 +101,7 @@ class Ctx:
         local_cfg = os.path.join(self.specdir, cfg + ".cfg")
         shutil.copy(cfgpath, local_cfg)
         gct = 2 if workers <= 2 else min(8, workers)
-        cmd = ["java", "-XX:+UseParallelGC", "-XX:ParallelGCThreads=%d" % gct, "-Xss256m",
+        cmd = ["java", "-Djava.io.tmpdir=" + meta, "-XX:+UseParallelGC", "-XX:ParallelGCThreads=%d" % gct, "-Xss256m",
                "-Xmx%s" % (heap or ("4g" if workers <= 2 else "16g")), "-cp", TLA_JAR, "tlc2.TLC",
                "-workers", str(workers), "-metadir", meta, "-config", cfg + ".cfg",
                "-noGenerateSpecTE"]
